@@ -16,12 +16,15 @@
 (*   FixLastChar = FALSE : set_offset keeps the stale last_char             *)
 (*   FixExhaust  = FALSE : exhaustion records a line start at               *)
 (*                         last_position + offset instead of input.len()    *)
-(* bin/check runs the model with both TRUE (must hold) and with each FALSE  *)
+(*   FixAdvance  = FALSE : advance_to takes relative positions (D5)         *)
+(* bin/check runs the model with all TRUE (must hold) and with each FALSE   *)
 (* (TLC must find the counter-example: the refinement check is not vacuous).*)
 (***************************************************************************)
 EXTENDS ScannerApi
 
-CONSTANTS FixLastChar, FixExhaust
+CONSTANTS FixLastChar, FixExhaust,
+          FixAdvance,     \* FALSE: advance_to takes positions relative to the last reset (before repair D5)
+          WithAdvance     \* TRUE: also explore peek_n / advance_to and set_offset to any boundary (C10)
 
 VARIABLES impl     \* [off, nxt, lastpos, lastnl, lines] - see NewImpl
 ivars == <<scanners, iters, cache, impl>>
@@ -73,6 +76,9 @@ ImplSetOffset(st, k, o) ==
   [st EXCEPT !.off = o, !.nxt = i, !.lastpos = 0,
              !.lastnl = IF FixLastChar THEN (i > 1 /\ NL(k, i - 1)) ELSE @]
 
+\* the public advance_to(position): positions are relative to the whole input
+ImplAdvance(st, k, p) == AdvanceRel(st, k, IF FixAdvance THEN (IF p >= st.off THEN p - st.off ELSE 0) ELSE p)
+
 \* position(o): binary search in line_offsets
 ImplPos(st, o) ==
   IF o \in st.lines THEN << Cardinality({ x \in st.lines : x <= o }), 1 >>
@@ -91,7 +97,13 @@ StepNextI == \E r \in NextLoop(impl, K, iters[1].mode) :
 StepSetOffsetI == \E o \in { Off(K, i) : i \in 1..iters[1].hw } :       \* to offsets already scanned (C09)
                     /\ DoSetOffset(1, o)
                     /\ impl' = ImplSetOffset(impl, K, o)
-INext == StepNextI \/ StepSetOffsetI
+\* C10: peek_n does not touch the bookkeeping; advance_to(end of a peeked match) moves the cursor
+StepPeekI == \E n \in {1, 2} : \E res \in PeekResults(iters[1], n) : DoPeek(1, n, res) /\ UNCHANGED impl
+StepAdvanceI == \E p \in iters[1].peeked : DoAdvanceTo(1, p) /\ impl' = ImplAdvance(impl, K, p)
+StepSetOffsetAnyI == \E o \in { Off(K, i) : i \in 1..(LenW(K) + 1) } \cup { ByteLen(K) + 2 } :
+                       /\ DoSetOffset(1, o)
+                       /\ impl' = ImplSetOffset(impl, K, o)
+INext == StepNextI \/ StepSetOffsetI \/ (WithAdvance /\ (StepPeekI \/ StepAdvanceI \/ StepSetOffsetAnyI))
 
 CursorRefines == impl.nxt = iters[1].cur
 PosRefines == iters[1].posok =>
